@@ -457,6 +457,15 @@ void add_unit(std::string const& name, int nin, int nout, F f) {
   registry().push_back(std::move(u));
 }
 
+// light variant (many tiny units, e.g. swizzles): symbolic + float only
+template<class F>
+void add_unit_lite(std::string const& name, int nin, int nout, F f) {
+  UnitRec u; u.name = name; u.nin = nin; u.nout = nout;
+  u.fsym = [f](SymR const* x, SymR* o) { f(x, o); };
+  u.f32 = [f](float const* x, float* o) { f(x, o); };
+  registry().push_back(std::move(u));
+}
+
 // integer units: the same generic callable at SymI32 / int32_t (signed) or SymU32 / uint32_t
 template<class F> void add_unit_i32(std::string const& name, int nin, int nout, F f) {
   UnitRec u; u.name = name; u.nin = nin; u.nout = nout; u.ty = T_I32;
@@ -560,7 +569,7 @@ inline int unit_main(int argc, char** argv) {
       if (u.ty == T_I32) { run_concrete_int<int32_t>(stdout, u, u.fi32, "i32", seed, count); continue; }
       if (u.ty == T_U32) { run_concrete_int<uint32_t>(stdout, u, u.fu32, "u32", seed, count); continue; }
       run_concrete<float>(stdout, u, u.f32, "f32", seed, count);
-      run_concrete<double>(stdout, u, u.f64, "f64", seed, count);
+      if (u.f64) run_concrete<double>(stdout, u, u.f64, "f64", seed, count);
     }
     return 0;
   }
